@@ -15,12 +15,13 @@ class Config:
     """One cluster configuration = constants of Cluster.tla + options of the real instances."""
 
     def __init__(self, n=2, core=(), sync=('STRICT',), auto_fence=False, fail='CONTINUE', t=2, sync_ticks=3,
-                 crash=0, restart=0, cut=0, user=0, slow=(), fix_f1=False, hold=False, rounds=6, name=None):
+                 crash=0, restart=0, cut=0, user=0, slow=(), fix_f1=False, fix_f5=True, hold=False, rounds=6, k=8, name=None):
         self.n, self.core, self.sync = n, tuple(core), tuple(sync)
         self.auto_fence, self.fail, self.t, self.sync_ticks = auto_fence, fail, t, sync_ticks
         self.crash, self.restart, self.cut, self.user = crash, restart, cut, user
         self.slow = tuple(slow)
-        self.fix_f1, self.hold, self.rounds = fix_f1, hold, rounds
+        self.fix_f1, self.hold, self.rounds, self.k = fix_f1, hold, rounds, k
+        self.fix_f5 = fix_f5
         # what supvisors.options.check_options does to the raw options
         eff = [s for s in self.sync if not (s == 'CORE' and not self.core)]
         self.eff_sync = tuple(eff)
@@ -45,7 +46,8 @@ class Config:
                  f'  T = {self.t}', f'  SyncTicks = {self.sync_ticks}', f'  MaxCrash = {self.crash}',
                  f'  MaxRestart = {self.restart}', f'  MaxCut = {self.cut}', f'  MaxUser = {self.user}',
                  f'  SlowQ = {slow}', '  Checkpoint = "COLD"', f'  FixF1 = {"TRUE" if self.fix_f1 else "FALSE"}',
-                 f'  HoldDist = {"TRUE" if self.hold else "FALSE"}', f'  MaxRound = {self.rounds}', f'  D = {d}']
+                 f'  FixF5 = {"TRUE" if self.fix_f5 else "FALSE"}',
+                 f'  HoldDist = {"TRUE" if self.hold else "FALSE"}', f'  MaxRound = {self.rounds}', f'  D = {d}', f'  K = {self.k}']
         if view:
             lines.append('VIEW View')
         if constraint:
@@ -254,10 +256,14 @@ def mon_trace(tid, rec, cfg, fair, ended):
             if kk[0] == 'PUBLICATION':
                 kind = {'0': 'TICK', '7': 'STATE', '1': 'PROCESS'}.get(kk[1], 'PUB' + kk[1])
             elif kk[0] == 'NOTIFICATION':
-                kind = 'NOTIF' + kk[1]
+                kind = 'NOTIF_' + {'0': 'IDENT', '1': 'AUTH', '2': 'STATE', '3': 'ALLINFO', '4': 'DISCOVERY',
+                                   '5': 'FAILURE'}.get(kk[1], kk[1])
             else:
                 kind = 'REQ' + kk[1]
         d = _idx(s.get('d', ''))
+        if s['a'] == 'Proxy' and kind.startswith('NOTIF_'):
+            subj = s.get('k', '').split(':')[2] if s.get('k', '').count(':') >= 2 else ''
+            d = _idx(subj) if subj in rec.c.nodes else 0
         if s['a'] == 'Rpc' and kind == 'end_sync':
             args = [x for x in rec.schedule if x[0] == 'rpc']
             d = 0
@@ -270,7 +276,8 @@ def mon_trace(tid, rec, cfg, fair, ended):
             'push': [[_idx(a), _idx(b), bool(iso), typ, int(what)] for a, b, typ, what, arg, iso in s['push']],
             'fails': [[_idx(a), _idx(b)] for a, b in s['rpcfail']],
             'err': bool(s['err']), 'iso': bool(s.get('iso', False)), 'snapchg': bool(s.get('snapchg', False)),
-            'user': bool(s.get('user', False))})
+            'user': bool(s.get('user', False)),
+            'nfail': [[_idx(a), _idx(b)] for a, b in s.get('nfail', []) if b in rec.c.nodes]})
         if s['a'] == 'Rpc' and s.get('k') == 'end_sync' and s.get('arg'):
             steps[-1]['d'] = _idx(s['arg'])
         prev = post
@@ -299,3 +306,140 @@ def run_monitor(cfg, traces, label='mon', workers=4):
     if done != {t['id'] for t in traces}:
         raise MachineryFailure(f'ClusterMon {cfg.name}: {len(done)} traces completed out of {len(traces)}')
     return vlib.tlc_prints(r.stdout, 'V '), vlib.tlc_prints(r.stdout, 'E '), r
+
+
+# ---------------------------------------------------------------------------------------------------------------
+# drivers on the real code
+
+
+def fair_tail(d, cfg, rounds):
+    """Disturbances stop: heal every partition, then `rounds` fair rounds (every live instance ticks, every FIFO
+    is drained)."""
+    c = d.c
+    for pair in list(c.cuts):
+        a, b = sorted(pair)
+        d.heal(a, b)
+    for _ in range(rounds):
+        d.fair_round()
+
+
+def replay_and_settle(cfg, beh, tail_rounds):
+    """Replay one model behaviour (conformance compared at each step), then the fair tail. Returns
+    (recorder, drift_text, ended)."""
+    from recorder import Driver
+    c = make_cluster(cfg)
+    d = Driver(c)
+    drift = ''
+    ended = False
+    try:
+        for nme in c.nodes:
+            d.boot(nme)
+        k = 0
+        for st in beh:
+            sch = act_to_schedule(st['a'])
+            k += 1
+            if sch[0] == 'noop':
+                continue
+            if st['a'][0] == 'User':
+                ended = True
+            if sch[0] == 'proxy' and c.head_kind(sch[1], sch[2]) is None:
+                drift = f'step {k} {st["a"]}: the real FIFO {sch[1]}->{sch[2]} is empty'
+                break
+            d.replay([sch])
+            diff = compare(st['p'], project(c, cfg.n), cfg.n)
+            if diff:
+                drift = f'step {k} after {st["a"]}: {diff}'
+                break
+        if any(o == 'restart' or o == 'shutdown' for nd in c.nodes.values() for o in nd.sup_orders):
+            ended = True
+        fair_tail(d, cfg, tail_rounds)
+    finally:
+        c.close()
+    return d.rec, drift, ended
+
+
+def random_run(cfg, seed, steps, tail_rounds, p_delay=0.3, faults=True, inject=False):
+    """Seeded random schedule on the real code, independent of the model: ticks in random order, deliveries that
+    may lag, crashes / restarts / partitions within the budgets of cfg, optional adversarial injections
+    (duplicated and stale handshake notifications); then the fair tail."""
+    from recorder import Driver
+    rnd = random.Random(seed)
+    c = make_cluster(cfg)
+    d = Driver(c)
+    names = list(c.nodes)
+    budget = {'crash': cfg.crash, 'restart': cfg.restart, 'cut': cfg.cut, 'user': cfg.user}
+    ended = False
+    saved = []      # notifications seen on local FIFOs (for stale / duplicate injection)
+    try:
+        for nme in names:
+            d.boot(nme)
+        ticked = set()
+        for _ in range(steps):
+            live = [n for n in names if c.nodes[n].alive]
+            pend = c.pending()
+            x = rnd.random()
+            if faults and x < 0.02 and budget['crash'] > 0 and len(live) > 1:
+                budget['crash'] -= 1
+                d.crash(rnd.choice(live))
+                continue
+            if faults and x < 0.05 and budget['restart'] > 0 and len(live) < len(names):
+                budget['restart'] -= 1
+                d.boot(rnd.choice([n for n in names if not c.nodes[n].alive]))
+                continue
+            if faults and x < 0.07 and budget['cut'] > 0 and len(names) > 1:
+                budget['cut'] -= 1
+                a, b = rnd.sample(names, 2)
+                d.cut(a, b)
+                continue
+            if faults and x < 0.09 and c.cuts:
+                a, b = sorted(rnd.choice(list(c.cuts)))
+                d.heal(a, b)
+                continue
+            if x < 0.10 and budget['user'] > 0 and live:
+                budget['user'] -= 1
+                n = rnd.choice(live)
+                m = rnd.choice(['restart', 'shutdown', 'end_sync'])
+                if m == 'end_sync':
+                    arg = rnd.choice([[], [rnd.choice(names)]])
+                    out = d.rpc(n, 'end_sync', *arg)
+                    if arg:
+                        d.rec.steps[-1]['arg'] = arg[0]
+                else:
+                    out = d.rpc(n, m)
+                    if out and out[0] == 'ok':
+                        ended = True
+                continue
+            if inject and x < 0.14 and saved:
+                # adversarial: re-deliver an old handshake notification (duplicate / stale epoch)
+                n, item = rnd.choice(saved)
+                if c.nodes[n].alive:
+                    p = c.proxies(n).get(n)
+                    if p is not None:
+                        p.queue.put_nowait(item)
+                        d.rec.schedule.append(['inject', n])
+                continue
+            # deliveries: eager with probability 1 - p_delay
+            if pend and (rnd.random() > p_delay or not live):
+                src, dst = rnd.choice(pend)
+                if inject and src == dst:
+                    p = c.proxies(src).get(dst)
+                    # handshake notifications only (IDENTIFICATION, AUTHORIZATION, STATE, ALL_INFO)
+                    if p is not None and p.queue.qsize() and p.queue.queue[0][0].name == 'NOTIFICATION' \
+                            and p.queue.queue[0][1][1][0] in (0, 1, 2, 3) and len(saved) < 50:
+                        saved.append((src, p.queue.queue[0]))
+                d.proxy(src, dst)
+                continue
+            cand = [n for n in live if n not in ticked]
+            if not cand:
+                ticked = set()
+                cand = live
+            if cand:
+                n = rnd.choice(cand)
+                ticked.add(n)
+                d.tick(n)
+        if any(nd.sup_orders for nd in c.nodes.values()):
+            ended = True
+        fair_tail(d, cfg, tail_rounds)
+    finally:
+        c.close()
+    return d.rec, ended
